@@ -288,7 +288,7 @@ package shimagent
 //@     invariant wheld(s) && inv(s) && !old(s.locked)
 //@     invariant calls(filter) == f0 + 1 && arg(filter, f0, 0) == s && ret(filter, f0, 2) == nil && err == nil
 //@     invariant certsInMemory == s.certs && keysInAgent == ret(filter, f0, 1)
-//@     invariant cacheOff(s) && (keys == nil || (fresh(arr(keys)) && arr(keys) != arr(keysInAgent)))
+//@     invariant cacheOff(s) && allocated(arr(keysInAgent)) && (keys == nil || (fresh(arr(keys)) && arr(keys) != arr(keysInAgent)))
 //@     invariant certsNonNil(s)
 //@     invariant forall(j, 0 <= j && j < len(keysInAgent), keysInAgent[j] != nil && akBlob(keysInAgent[j]) == blobid(asKey(keysInAgent[j])))
 //@     invariant forall(i, 0 <= i && i < len(keys), keys[i] != nil && exists(h#bytes, h in dom(s.certs), akBlob(keys[i]) == blobid(asKey(s.certs[h]))))
@@ -297,7 +297,7 @@ package shimagent
 //@     invariant wheld(s) && inv(s) && !old(s.locked)
 //@     invariant calls(filter) == f0 + 1 && arg(filter, f0, 0) == s && ret(filter, f0, 2) == nil && err == nil
 //@     invariant keysInAgent == ret(filter, f0, 1)
-//@     invariant cacheOff(s) && (keys == nil || (fresh(arr(keys)) && arr(keys) != arr(keysInAgent)))
+//@     invariant cacheOff(s) && allocated(arr(keysInAgent)) && (keys == nil || (fresh(arr(keys)) && arr(keys) != arr(keysInAgent)))
 //@     invariant mapdom(s.certs) == entry(mapdom(s.certs)) && mapval(s.certs) == entry(mapval(s.certs))
 //@     invariant certsNonNil(s)
 //@     invariant forall(j, 0 <= j && j < len(keysInAgent), keysInAgent[j] != nil && akBlob(keysInAgent[j]) == blobid(asKey(keysInAgent[j])))
